@@ -164,7 +164,7 @@ pub fn depth_of(v: &Value) -> usize {
 
 /// One-step simplifications of a value (for greedy shrinking of witnesses).
 pub fn shrink_candidates(v: &Value) -> Vec<Value> {
-    shrink_candidates_lim(v, shrink_budget().max(1) as usize)
+    shrink_candidates_lim(v, shrink_budget().max(0) as usize)
 }
 
 /// At most about `limit` candidates (generation stops early: cloning large values is costly).
